@@ -212,8 +212,10 @@ package xtype
 //@   at return assert len(exactMatches) == 0 ==> seqEq(matches, ignoreCaseMatches)
 
 //@ func FindExactField
-//@   props C03 C05
+//@   props C03 C05 C13
+//@   requires@C13 source != nil && source.Struct && source.StructType != nil && (source.Named ==> source.NamedType != nil)
 //@   ensures (err == nil) == (result != nil)
+//@   ensures@C13 err == nil ==> result.Type != nil
 
 // ---- C05: exact-name lookup scans the fields and then (for named types) the methods ----
 //@ func Type.findAllFields
@@ -222,6 +224,7 @@ package xtype
 //@   ensures result0 == nil ==> (forall y int :: 0 <= y && y < t.StructType.NumFields() ==> t.StructType.Field(y).Name() != name)
 //@   ensures result0 == nil && t.Named ==> (forall y int :: 0 <= y && y < t.NamedType.NumMethods() ==> t.NamedType.Method(y).Name() != name)
 //@   ensures result0 != nil ==> len(result0.Path) == len(path) + 1 && result0.Path[len(path)] == name
+//@   ensures@C13 result0 != nil ==> result0.Type != nil
 //@   loop 1 invariant same(t, old(t)) && same(path, old(path)) && name == old(name)
 //@   loop 2 invariant same(t, old(t)) && same(path, old(path)) && name == old(name)
 //@   loop 1 invariant 0 <= y && (forall z int :: 0 <= z && z < y ==> t.StructType.Field(z).Name() != name)
